@@ -105,6 +105,15 @@ def merge_states(cx, parent, states, base_len, base_pc, live=None):
     for s in states:
         seen |= getattr(s, 'names_seen', set())
     m.names_seen = seen
+    # read-only provenance: kept only where every arm agrees (no alarm from an arm that replaced the
+    # value by a writable one)
+    ro = dict(getattr(states[0], 'ro', {}))
+    for s in states[1:]:
+        o = getattr(s, 'ro', {})
+        for k in list(ro.keys()):
+            if k not in o:
+                del ro[k]
+    m.ro = ro
     # heap
     allkeys = set()
     for s in states:
